@@ -121,8 +121,8 @@ def history_lines(pid, rng, tier):
                     for _ in range(rng.randint(1, 2)):
                         xs = [G.rs(rng, L) for _ in range(rng.randint(1, 2))]
                         new.append(rng.choice(["q.isin:", "q.isin:", "q.seldep:"]) + ",".join(xs))
-                    if rng.random() < 0.3:
-                        new.append(rng.choice(["q.alg", "q.verts", "q.dim", "q.indeps"]))
+                    if rng.random() < 0.4:
+                        new.append(rng.choice(["q.alg", "q.verts", "q.dim", "q.indeps", "q.gen", "q.gen"]))
                 q = rng.choice(HQ[pid])
                 if q in ("q.isin", "q.seldep"):
                     L = len(cur[0]) if cur else maxn
